@@ -277,7 +277,56 @@ def h_score(ctx, case):
     return 'ok'
 
 
+def _rm_setup(case, mode):
+    from harness import refmarkers as RM
+    RM.setup(case, mode)
+
+
+def classify_stage(f, case):
+    w = f['witness']
+    if all(v == 0 for k, v in w.items() if k.startswith('n_cells[')) and \
+            'hunk' in f['label'] + str(f.get('exc')):
+        return 'F5:no-marker-at-all:_merge_sparse_by_pair_files-chunks=(0,)'
+    if 'hunk' in f['label']:
+        return 'F5:no-marker-in-one-direction:chunks=(0,)'
+    return None
+
+
+def h_marker_stage(ctx, case):
+    """find_markers_for_all_taxonomy_pairs on real files"""
+    from harness import refmarkers as RM
+    res = RM.run_stage(ctx, case)
+    if res['raised'] is not None:
+        ctx.exception(res['raised'])
+        return 'EXC ' + type(res['raised']).__name__
+    ctx.reach('written')
+    RM.check_tables(ctx, res)
+    return 'ok'
+
+
 HARNESSES = [
+    Harness('marker_table_stage', h_marker_stage, setup=_rm_setup,
+            cases=[{'vary': ['c0', 'c2', 'c3']}],
+            thorough_cases=[{}],
+            funcs=['markers.find_markers_for_all_taxonomy_pairs',
+                   'create_sparse_by_pair_marker_file', '_prep_output_file',
+                   '_prep_chunk', '_find_markers_worker',
+                   '_write_to_tmp_file', '_lookup_to_sparse',
+                   '_merge_sparse_by_pair_files',
+                   'add_sparse_by_gene_markers_to_file',
+                   'scores.score_differential_genes (real, incl. the real '
+                   'Welch test)', 'csc_to_csr(_parallel) transposition'],
+            stubs=['multiprocessing -> model (workers inline)'],
+            classify=classify_stage,
+            bounds='real files: 5 leaf clusters (10 pairs => two worker '
+                   'chunks), 6 genes, fixed per-cell data; solver-chosen '
+                   'cluster sizes (1 or 3 cells; quick: three clusters '
+                   'vary), worker count 1-3, exact / approximate '
+                   'penetrance, n_valid 1 / 30, gene list or none',
+            outside='genes whose statistics lie within a small margin of '
+                    'a threshold are not judged (the oracle uses scipy\'s '
+                    't CDF)',
+            expect_reach=['written'], split=32),
     Harness('holm_correction', h_holm, setup=setup_holm,
             cases=[{'n': 1}, {'n': 2}, {'n': 3}],
             thorough_cases=[{'n': 1}, {'n': 2}, {'n': 3}, {'n': 4}],
